@@ -47,7 +47,7 @@ FLOATS = [_e(x) for x in (0.5, -0.5, 0.1, 1.5, 1e-7, 1e20, 1e16, 5e-324, 2.5, 1 
 BOOLS = [True, False]
 TEXTS_SAFE = [' ', 'a', 'A', 'TRUE', 'FALSE', 'True', '1', '0', '1.0', 'None', "it's", 'say "hi"', 'back\\slash',
               'line\nbreak', 'tab\there', '{x}', '{{', '{0}', '}', '%s', 'a=b', ' =1+1', 'SUM(1)', 'x' * 51, 'y' * 300,
-              'z' * 32767, 'яблоко', '#N/A', '#DIV/0!', "'''", '"""', "\\'", '2020-01-01', 'ends with backslash\\',
+              'z' * 5000, 'яблоко', '#N/A', '#DIV/0!', "'''", '"""', "\\'", '2020-01-01', 'ends with backslash\\',
               '\\n', 'emoji \U0001F600', '0x10', '1e3', ' 1', '-', '+1']
 TEXTS_CALL = ['self.EmptyCell()', 'datetime.datetime(2020, 1, 1)', 'f(x)', 'eval(1)', "__import__('os')"]
 DT = datetime.datetime
@@ -710,6 +710,9 @@ def scn_far(tier):
             out.append({'group': 'far_cells', 'books': [{'spec': spec, 'safety': True}], 'seed': i, 'area': 60000})
         out.append({'group': 'far_cells', 'books': [{'spec': {'sheets': [s0, s1, s2]}, 'safety': True, 'entry': ['near', 1, 3]}],
                     'seed': i})
+    # the longest text a cell can hold, next to its neighbours
+    out.append({'group': 'far_cells', 'seed': 0, 'books': [{'safety': False, 'spec': {'sheets': [
+        {'title': 'Long', 'cells': [[2, 2, 'z' * 32767], [3, 2, 'q' * 32766 + "'"], [2, 3, 1], [1, 2, True]]}]}}]})
     return out
 
 
@@ -1047,11 +1050,12 @@ GROUPS = {
                      True),
     'occupancy4x3': ('all 4096 occupancy patterns of the 4 x 3 grid A1:D3 (one per sheet, 32 sheets per workbook)', True),
     'value_x_position': (f'{len(ALL_VALUES)} constants (ints up to 10^20, floats incl. 1.0/0.0/-0.0/5e-324/1.797e308, booleans, '
-                         f'{len(TEXTS_SAFE) + len(TEXTS_CALL)} texts up to 32767 chars with quotes, braces, backslashes, line breaks, '
+                         f'{len(TEXTS_SAFE) + len(TEXTS_CALL)} texts up to 5000 chars with quotes, braces, backslashes, line breaks, '
                          'call-like text, date-times 1900..9999, times) x 24 positions (columns 1,2,3,5,10,26,27,52,53,100,256,257,'
                          '702,703,704; rows 1,2,3,5,10,100,101,256,257,1000,1001): every pair', True),
-    'far_cells': ('cells at XFD1, XFC2, XFD3, A65536, B65537, AAA1001, XFD1048576 (thorough: also C1048576) with a later narrower '
-                  'sheet and an empty sheet, both sheet orders, references to the far cell, entry-point translation', True),
+    'far_cells': ('cells at XFD1, XFC2, XFD3, A65536, B65537, AAA1001, XAB5, XFD1048576 (thorough: also C1048576) with a later narrower '
+                  'sheet and an empty sheet, both sheet orders, references to the far cell, entry-point translation; two texts of 32767 '
+                  'characters', True),
     'many_sheets': ('workbooks of 1..6, 12, 40 (thorough: ..101) sheets; free / strictly shrinking / strictly growing / '
                     'empty-first-and-last layouts; all-empty workbooks; hidden sheets', False),
     'titles': ('all 24 orders of the titles b, a, 1, 0; 30 titles (unicode, spaces, braces, digits, 31 chars) in unsorted order; '
@@ -1060,7 +1064,7 @@ GROUPS = {
                            'column, at A1 of consecutive sheets, and one per workbook with workbooks translated one after another '
                            '(fresh objects, one Parser, one Executor); overrides of equal values of another type', True),
     'references': ('formulas =<ref> (relative, $-absolute, qualified, quoted titles, reference to a reference, the same text =B2 at '
-                   'G5 of every sheet) to constants at B2, A1, C5, AA3, B101, AAA2 (XFD1, B65537); whole file, entry-point at '
+                   'E7 of every sheet) to constants at B2, A1, C5, AA3, B101, AAA2 (XFD1, B65537); whole file, entry-point at '
                    'formulas and constants, one Parser + one entry Cell object over workbooks with reversed sheet order', False),
     'array_formula': ('array formulas =SUM(range), =<ref>, =1+2, =Sheet!ref at 5 offsets, next to the same ordinary formula, '
                       'referenced from another sheet, whole file and entry point', False),
